@@ -683,6 +683,20 @@ def rules_for(op):
     return out
 
 
+_INST = {}
+
+
+def instance(expr):
+    """(op, {rule name: rule}) for an instance expression; small per-process cache (cases of one instance are adjacent)."""
+    hit = _INST.get(expr)
+    if hit is None:
+        if len(_INST) > 64:
+            _INST.clear()
+        op = build(expr)
+        hit = _INST[expr] = (op, dict(rules_for(op)))
+    return hit
+
+
 def decomp_args(op):
     from pennylane.decomposition.utils import _get_decomp_args
 
@@ -924,7 +938,9 @@ def apply_op(state, op, idx, n):
         return state * complex(m[0])
     try:
         return RS.apply_op(state, op, idx, n)
-    except (ValueError, TypeError, AttributeError, IndexError, KeyError, NotImplementedError) as e:
+    except (ImportError, MemoryError, OSError):
+        raise
+    except Exception as e:  # noqa: BLE001
         # the matrix of an *emitted* operator is a declared dependence (C01/C02), not the subject of this check
         raise Unsimulable(f"matrix of emitted {type(op).__name__} raised {type(e).__name__}") from e
 
@@ -1641,12 +1657,27 @@ def enumerate_cases(tier):
     return cases, cov
 
 
-def compiler_gated_cases(tier):
+def cases_for_keys(keys, tier, exclude=()):
+    """Cases of the given registry keys in the given tier's instance table, minus those already in `exclude`."""
+    have = set((c["expr"], c["rule"]) for c in exclude)
+    out = []
+    for key in keys:
+        for e in instance_exprs(key, tier) or []:
+            op = build(e)
+            name = op_name(op)
+            for rname, _r in rules_for(op):
+                if (e, rname) not in have:
+                    have.add((e, rname))
+                    out.append({"key": name, "expr": e, "rule": rname})
+    return out
+
+
+def compiler_gated_cases(tier, only=None):
     """Cases for rules that are inapplicable only because no compiler is active (found by re-evaluating the
     applicability conditions with pennylane.compiler.active patched to True)."""
     from unittest import mock
 
-    cases, _ = enumerate_cases(tier)
+    cases = only if only is not None else enumerate_cases(tier)[0]
     out = []
     cache = {}
     for s in cases:
@@ -1662,3 +1693,66 @@ def compiler_gated_cases(tier):
         if forced.get(s["rule"]) and not plain.get(s["rule"]):
             out.append({**s, "force_compiler": True})
     return out
+
+
+# ------------------------------------------------------------------------------------------------ whole circuits (C12)
+def circuit_wires(ops):
+    out = []
+    for o in ops:
+        for w in o.wires:
+            if w not in out:
+                out.append(w)
+    return out
+
+
+def verify_circuit(in_ops, out_ops):
+    """Does `out_ops` (may contain Allocate/Deallocate and the input operators' declared work wires) implement
+    `in_ops` up to one global phase, returning every work wire as promised?  Returns (violation | None, info)."""
+    import types
+
+    sys = circuit_wires(in_ops)
+    ns = len(sys)
+    own, wtype = [], {}
+    for o in in_ops:
+        for w in _own_work_wires(o):
+            if w not in sys and w not in own:
+                own.append(w)
+                t = own_work_wire_type(o)
+                wtype[w] = "borrowed" if t in (None, "None") else t
+    pseudo = types.SimpleNamespace(wires=sys, hyperparameters={"work_wires": own}, work_wire_type=None)
+    ref_ops = expand_for_sim(list(in_ops))
+    Uin, _ = simulate(sys, ref_ops, set())
+    Uin = Uin.reshape(2 ** ns, 2 ** ns)
+    lay = Layout(pseudo, expand_for_sim(list(out_ops)))
+    info = {"n_in": len(in_ops), "n_out": len(lay.ops), "wires": lay.n}
+    if lay.foreign:
+        return ("foreign-wires", [repr(w) for w in lay.foreign], "only circuit wires, declared work wires and allocated wires"), info
+    kinds = {w: wtype[w] for w in own}
+    for w, _st, _rest, kind in lay.dyn:
+        kinds[w] = kind
+    zero_aux = [w for w, k in kinds.items() if k in ("zeroed", "burnable")]
+    state, free = simulate(lay.order, lay.ops, set(zero_aux))
+    aux = lay.order[ns:]
+    na = len(aux)
+    free_aux = [w for w in free if w not in sys]
+    M = state.reshape(2 ** ns, 2 ** na, 2 ** ns, 2 ** len(free_aux))
+    R = np.einsum("sc,sacb->ab", Uin.conj(), M) / 2 ** ns
+    recon = np.einsum("sc,ab->sacb", Uin, R)
+    if float(np.max(np.abs(M - recon))) > 1e-7 or abs(float(np.sum(np.abs(R) ** 2)) - 2 ** len(free_aux)) > 1e-6:
+        return ("circuit-changed", _small(M.reshape(2 ** ns * 2 ** na, -1)), _small(Uin)), info
+    Rt = R.reshape((2,) * na + (2,) * len(free_aux))
+    for i, w in enumerate(aux):
+        if kinds.get(w) == "zeroed":
+            sl = [slice(None)] * Rt.ndim
+            sl[i] = 1
+            if float(np.max(np.abs(Rt[tuple(sl)]))) > 1e-7:
+                return ("work-wire-not-restored:zeroed", float(np.max(np.abs(Rt[tuple(sl)]))), 0.0), info
+    for j, w in enumerate(free_aux):
+        if kinds.get(w) == "borrowed":
+            i = aux.index(w)
+            A0 = np.moveaxis(Rt, (i, na + j), (0, 1))
+            off = max(float(np.max(np.abs(A0[0, 1]))), float(np.max(np.abs(A0[1, 0]))))
+            dif = float(np.max(np.abs(A0[0, 0] - A0[1, 1])))
+            if off > 1e-7 or dif > 1e-7:
+                return ("work-wire-not-restored:borrowed", [off, dif], [0.0, 0.0]), info
+    return None, info
